@@ -70,6 +70,50 @@ func c05(c *Ctx) {
 		case *ssa.Parameter:
 			// range-over-func closure of EnabledUnmonitoredEntries
 			ok := false
+			if s.fn.Parent() == nil {
+				// a named helper (newMonitoredPRF(entry, …)): at every call site the
+				// argument is the loop variable of an enabled-entries loop
+				idx := -1
+				for i, q := range s.fn.Params {
+					if q == x {
+						idx = i
+					}
+				}
+				nCalls, good := 0, true
+				for _, caller := range p.SortedFuncs(core.Product) {
+					allInstrs(caller, func(ins ssa.Instruction) {
+						c2, isC := ins.(*ssa.Call)
+						if !isC || c2.Call.StaticCallee() != s.fn || idx < 0 || idx >= len(c2.Call.Args) {
+							return
+						}
+						nCalls++
+						ap, isP := guard.Strip(c2.Call.Args[idx]).(*ssa.Parameter)
+						par := caller.Parent()
+						if !isP || par == nil || len(caller.Params) != 1 || ap != caller.Params[0] {
+							good = false
+							return
+						}
+						fromLoop := false
+						allInstrs(par, func(i3 ssa.Instruction) {
+							mc, isMC := i3.(*ssa.MakeClosure)
+							if !isMC || mc.Fn != ssa.Value(caller) {
+								return
+							}
+							for _, ref := range *mc.Referrers() {
+								if call, isCl := ref.(*ssa.Call); isCl && len(call.Call.Args) == 1 && call.Call.Args[0] == ssa.Value(mc) {
+									if src, _ := guard.CallOf(call.Call.Value); src != nil && strings.HasSuffix(guard.CalleeName(&src.Call), "internal/factoryutil.EnabledUnmonitoredEntries") {
+										fromLoop = true
+									}
+								}
+							}
+						})
+						if !fromLoop {
+							good = false
+						}
+					})
+				}
+				ok = good && nCalls > 0
+			}
 			if par := s.fn.Parent(); par != nil && len(s.fn.Params) == 1 && x == s.fn.Params[0] {
 				allInstrs(par, func(ins ssa.Instruction) {
 					mc, isMC := ins.(*ssa.MakeClosure)
@@ -178,25 +222,56 @@ func c05(c *Ctx) {
 		// (d) primary slot
 		if s.how == "loop" {
 			nPrim := 0
-			allInstrs(s.fn, func(ins ssa.Instruction) {
-				st, ok := ins.(*ssa.Store)
-				if !ok {
-					return
-				}
-				fv, isFV := st.Addr.(*ssa.FreeVar)
-				if !isFV || !strings.Contains(strings.ToLower(fv.Name()), "primary") {
-					return
-				}
-				nPrim++
-				good := false
-				for _, f := range guard.InstrFacts(ins) {
-					if call, val, ok := guard.BoolCallFact(f); ok && val && isEntryMethod(&call.Call, "IsPrimary") && sameEntry(call.Call.Args[0], s.entry) {
-						good = true
+			// the loop body: the site's own closure, or — when the primitive is built in a
+			// named helper — the loop closures calling that helper
+			type loopFn struct {
+				fn    *ssa.Function
+				entry ssa.Value
+			}
+			loops := []loopFn{{s.fn, s.entry}}
+			if s.fn.Parent() == nil {
+				loops = nil
+				for _, caller := range p.SortedFuncs(core.Product) {
+					if caller.Parent() == nil || len(caller.Params) != 1 {
+						continue
+					}
+					calls := false
+					allInstrs(caller, func(ins ssa.Instruction) {
+						if c2, isC := ins.(*ssa.Call); isC && c2.Call.StaticCallee() == s.fn {
+							calls = true
+						}
+					})
+					if calls {
+						loops = append(loops, loopFn{caller, caller.Params[0]})
 					}
 				}
-				r.Check(good, "C05.primary", fmt.Sprintf("C05.primary/%s/%s", fid, fv.Name()), p.Pos(ins.Pos()),
-					"the primary slot is assigned without a dominating entry.IsPrimary()==true for the same entry", "dominated by entry.IsPrimary()")
-			})
+			}
+			for _, lf := range loops {
+				allInstrs(lf.fn, func(ins ssa.Instruction) {
+					st, ok := ins.(*ssa.Store)
+					if !ok {
+						return
+					}
+					slot := ""
+					if fv, isFV := st.Addr.(*ssa.FreeVar); isFV && strings.Contains(strings.ToLower(fv.Name()), "primary") {
+						slot = fv.Name()
+					} else if _, fld, _, isSF := guard.StoreField(ins); isSF && strings.Contains(strings.ToLower(fld), "primary") {
+						slot = fld
+					}
+					if slot == "" {
+						return
+					}
+					nPrim++
+					good := false
+					for _, f := range guard.InstrFacts(ins) {
+						if call, val, ok := guard.BoolCallFact(f); ok && val && isEntryMethod(&call.Call, "IsPrimary") && sameEntry(call.Call.Args[0], lf.entry) {
+							good = true
+						}
+					}
+					r.Check(good, "C05.primary", fmt.Sprintf("C05.primary/%s/%s", fid, slot), p.Pos(ins.Pos()),
+						"the primary slot is assigned without a dominating entry.IsPrimary()==true for the same entry", "dominated by entry.IsPrimary()")
+				})
+			}
 			// factories whose wrapper produces output need a primary
 			if nPrim == 0 {
 				r.Outside("C05.primary", "C05.primary/"+fid+"/none", p.FuncPos(s.fn), "no primary slot assigned in this loop (accept-only wrapper)")
